@@ -320,6 +320,23 @@ func NewPool(kt string, code uint, variant string) *Pool {
 		if b.typ == "deactivate" {
 			forged("g", func(s *OpSpec) { s.SignedSuffix = "EiOtherSuffix" }, func(a *sidetree.Op) { a.ParseOK = false; a.Authorized = true })
 		}
+		// tampered copies: the legitimate operation's own next commitments (and an evil document), with a signature that does not
+		// verify. Whatever bookkeeping an implementation does with an operation's next commitment before it has verified the
+		// operation must not affect the legitimate operation that commits to the same value.
+		tampered := func(kindID string, mod func(*OpSpec)) {
+			id := fmt.Sprintf("F%s(%s)", kindID, b.id)
+			noAuth := func(a *sidetree.Op) { a.Authorized = false }
+			switch b.typ {
+			case "update":
+				upd(id, b.reveal, b.nextUp, svc("evil"), mod, noAuth, kindID, b.id)
+			case "recover":
+				rec(id, b.reveal, b.nextRec, b.nextUp, svc("evil"), mod, noAuth, kindID, b.id)
+			}
+		}
+		if b.typ != "deactivate" {
+			tampered("t0", func(s *OpSpec) { s.JWS = &JWSOpts{SigMut: func([]byte) []byte { return otherSig(s.SignKey) }} })
+			tampered("t1", func(s *OpSpec) { s.PayloadKey = s.SignKey; s.SignKey = k("a0") })
+		}
 	}
 	return p
 }
